@@ -1,6 +1,7 @@
 import Proofs.Lemmas.Tokens
 import Proofs.Lemmas.Split
 import Proofs.Lemmas.Normalise
+import Proofs.Lemmas.NormalForm
 set_option linter.unusedSimpArgs false
 set_option linter.unusedVariables false
 /-
@@ -20,6 +21,21 @@ whitespace strings w, w1, w2 (any Python whitespace, newlines included).  The sc
 NOT covered by the token grammar (hence only by the correspondence check): a literal `{` that is not part of a
 parameter term, identifiers glued to a preceding number such as `1e5`, an index text that is empty or contains `]`.
 The step from scanned terms to Symbols (Symbol.combine, merge across statements) is M3 (another work package).
+
+"The normal form is a fixed point" (re-parse round trip), on the token grammar:
+  `parseBody_render`      — for every well-formed statement token list and every layout, `parse_equation` returns the
+                            tokens' terms, and equation / code = the normalised template (terms → `{}`) filled with the
+                            terms' standardised texts / code texts (hypotheses: decidable side conditions listed there);
+  `nf_reparse`            — if the template is already normalised, the equation IS the token list with every term
+                            re-spelled `name[t±k]` (`spellTok tSpell`);
+  `normal_form_fixed_point` — parsing the feed-back form `spellTok fbSpell` of the equation tokens reproduces the
+                            equation text, provided every index spelling is `Stable`;
+  concrete round trips (equation AND code) by evaluation of `parseEquationText ∘ feedbackText`.
+NOT proved (stated here, not hidden): (a) that the normalised template of an ARBITRARY well-formed `ts` is again the
+template of a token list (`normaliseWs` distributes over the `{}` holes), which would remove hypothesis `hN` and derive
+the side conditions of the feed-back form from those of `ts`; (b) `Stable` for every integer index: the core step
+`digitsGo_natDigits` (int() reads back the digits Python prints) is proved, the wrapping through `strip`/sign is not;
+(c) the general statement for the code text (only `parseBody_render`'s formula and the evaluated examples)."
 -/
 namespace Fsic.C14
 open Fsic.Lx
@@ -146,5 +162,230 @@ theorem normaliseWs_idempotent (s : List Char) : normaliseWs (normaliseWs s) = n
 
 example : normaliseWs ['(', ' ', '\n', 'a', ' ', ' ', '+', '\t', 'b', ' ', ')'] = ['(', 'a', ' ', '+', ' ', 'b', ')'] := by
   decide
+
+/-! ## Non-vacuity (review): the hypotheses of the theorems above at concrete inputs -/
+
+-- scan_render / layout_invariance_scan / layout_invariance_terms: h₁, h₂, h at `demo` vs `demoTight` (18 tokens, 8 terms)
+example : (scanTerms (renderAll demo)).map strip = (scanTerms (renderAll demoTight)).map strip ∧
+    ((scanTerms (renderAll demo)).map strip).length = 8 :=
+  ⟨layout_invariance_scan demo demoTight (wfB_sound _ _ (by decide)) (wfB_sound _ _ (by decide)) (by decide), by decide⟩
+example : termsOf (scanTerms (renderAll demo)) = termsOf (scanTerms (renderAll demoTight)) ∧
+    (termsOf (scanTerms (renderAll demo))).isSome = true :=
+  ⟨layout_invariance_terms demo demoTight (wfB_sound _ _ (by decide)) (wfB_sound _ _ (by decide)) (by decide), by decide⟩
+-- termsOf_congr: its hypothesis, for the two real scans (which differ: the spans are not the same)
+example : (scanTerms (renderAll demo)).map strip = (scanTerms (renderAll demoTight)).map strip ∧
+    scanTerms (renderAll demo) ≠ scanTerms (renderAll demoTight) := by decide
+-- explicit_zero is not the equation `none = none`: `[0]` and no index both parse to the integer 0; `[-1]` does not
+example : indexOf .variable (some ['0']) = some (.int 0) ∧ indexOf .variable none = some (.int 0) ∧
+    indexOf .variable (some ['-', '1']) = some (.int (-1)) := by decide
+-- split_concat_lines / split_concat: `Complete` for a two-line statement, followed by a second statement
+example : splitGo .init (splitLines ['Y', '=', '(', 'X', '\n', ')'] ++ [['Z', '=', '1']]) =
+    ([['Y', '=', '(', 'X', '\n', ')'], ['Z', '=', '1']], .ok) := by
+  have := (split_concat_lines (splitLines ['Y', '=', '(', 'X', '\n', ')']) [['Z', '=', '1']]
+    (by unfold Complete; decide)).1
+  rw [this]; decide
+example : splitStatements (['Y', '=', '(', 'X', '\n', ')'] ++ '\n' :: ['Z', '=', '1']) =
+    ((splitStatements ['Y', '=', '(', 'X', '\n', ')']).1 ++ (splitStatements ['Z', '=', '1']).1,
+     (splitStatements ['Z', '=', '1']).2) :=
+  split_concat _ _ ')' (by decide) (by decide) (by unfold Complete; decide)
+-- split_concat_error: `h` (an indented second line is an IndentationError; what follows is not looked at)
+example : endState .init (splitLines ['Y', '=', 'X', '\n', ' ', 'Z', '=', '1']) = none ∧
+    splitGo .init (splitLines ['Y', '=', 'X', '\n', ' ', 'Z', '=', '1']) = ([['Y', '=', 'X']], .indentationError) := by
+  decide
+example : splitGo .init (splitLines ['Y', '=', 'X', '\n', ' ', 'Z', '=', '1'] ++ [['W', '=', '2']]) =
+    splitGo .init (splitLines ['Y', '=', 'X', '\n', ' ', 'Z', '=', '1']) :=
+  split_concat_error _ _ (by decide)
+-- blank_and_comment_lines_neutral at a real statement list
+example : splitGo .init ([] :: ['#', 'c'] :: [['Y', '=', 'X']]) = ([['Y', '=', 'X']], .ok) := by decide
+
+/-! ## The normal form is a fixed point (re-parse round trip on the token grammar) -/
+
+/-- A statement as a token list split at its first `=`: left tokens, a chunk `a = b`, right tokens. -/
+def stmtToks (L R : List Tok) (a b : List Char) : List Tok := L ++ [.chunk (a ++ '=' :: b)] ++ R
+
+/-- **parseBody_render**: `parse_equation` on the rendered text of a well-formed statement, for every layout:
+    the terms are those of the tokens, the equation and the code are the normalised template (every term token
+    replaced by `{}`) filled with the terms' standardised texts resp. code texts, in order.
+    Hypotheses (each decidable on a concrete token list): the whole statement and its two sides are well-formed
+    (`Wf`, checkable with `wfB`), the first `=` is the one in the middle chunk, the statement is not a fenced block,
+    braces are balanced and occur only inside parameter terms, every index parses (`termsOf … = some _`), no keyword
+    on the left, and the symbol stage of M2 accepts (`symbolStage = none`: one endogenous variable, no clash). -/
+theorem parseBody_render (L R : List Tok) (a b : List Char) (lt rt : List Term)
+    (hW : Wf false (stmtToks L R a b)) (hWl : Wf false (L ++ [.chunk a])) (hWr : Wf false (.chunk b :: R))
+    (hEq : ∀ c ∈ renderAll (L ++ [.chunk a]), c ≠ '=')
+    (hV : (startsWith ['`'] (renderAll (stmtToks L R a b)) && endsWith ['`'] (renderAll (stmtToks L R a b))) = false)
+    (hB : braceNet 0 (renderAll (stmtToks L R a b)) = 0)
+    (hO : ∀ c ∈ outsideAll (stmtToks L R a b), isBrace c = false)
+    (hl : termsOf (expectAll 0 (L ++ [.chunk a])) = some lt) (hr : termsOf (expectAll 0 (.chunk b :: R)) = some rt)
+    (hK : (hasKind .keyword lt || hasKind .invalid rt) = false) (hS : symbolStage lt rt = none) :
+    parseBody (renderAll (stmtToks L R a b)) =
+      .parsed lt rt
+        (.ok (renderP (fmtPieces none (normaliseWs (holesAll (stmtToks L R a b)))) ((lt ++ rt).map termStr)))
+        (.ok (renderP (fmtPieces none (normaliseWs (holesAll (stmtToks L R a b)))) ((lt ++ rt).map termCode))) ∧
+    termsOf (expectAll 0 (stmtToks L R a b)) = some (lt ++ rt) := by
+  have hwf := hW.all_wf
+  have hscan : scanTerms (renderAll (stmtToks L R a b)) = expectAll 0 (stmtToks L R a b) := scan_render _ hW
+  have hout : outside (renderAll (stmtToks L R a b)) = outsideAll (stmtToks L R a b) := by
+    have := outsideGo_toks (stmtToks L R a b) 0 [] [] hwf (by simp)
+    simp only [List.append_nil, Nat.zero_add] at this
+    unfold outside; rw [hscan, this]; simp [outsideGo]
+  have htem : template (renderAll (stmtToks L R a b)) = holesAll (stmtToks L R a b) := by
+    have := templateGo_toks (stmtToks L R a b) 0 [] [] hwf (by simp)
+    simp only [List.append_nil, Nat.zero_add] at this
+    unfold template; rw [hscan, this]
+    cases h : (renderAll (stmtToks L R a b)).length <;> simp [templateGo]
+  have hsplit : renderAll (stmtToks L R a b) = renderAll (L ++ [.chunk a]) ++ '=' :: renderAll (.chunk b :: R) := by
+    simp [stmtToks, renderAll_append, renderAll, Tok.render]
+  have hsp : splitAtEq (renderAll (stmtToks L R a b)) = some (renderAll (L ++ [.chunk a]), renderAll (.chunk b :: R)) := by
+    rw [hsplit]; exact splitAtEq_append _ _ hEq
+  have hall : termsOf (expectAll 0 (stmtToks L R a b)) = some (lt ++ rt) := by
+    rw [termsOf_congr' (expectAll 0 (stmtToks L R a b)) (expectAll 0 (L ++ [.chunk a]) ++ expectAll 0 (.chunk b :: R))
+      (by simp [expectAll_abs, stmtToks, List.filterMap_append, List.filterMap_cons, Tok.abs])]
+    exact termsOf_append _ _ lt rt hl hr
+  have hlen : (lt ++ rt).length = (scanTerms (renderAll (stmtToks L R a b))).length := by
+    rw [hscan]; exact termsOf_length _ _ hall
+  have hbr : (outside (renderAll (stmtToks L R a b))).any isBrace = false := by
+    rw [hout]
+    cases hh : (outsideAll (stmtToks L R a b)).any isBrace with
+    | false => rfl
+    | true =>
+      obtain ⟨c, hc, hcb⟩ := List.any_eq_true.mp hh
+      rw [hO c hc] at hcb; cases hcb
+  have het : equationTerms (renderAll (stmtToks L R a b)) = .ok (lt, rt) := by
+    unfold equationTerms
+    rw [hsp]
+    simp only [scan_render _ hWl, scan_render _ hWr, hl, hr, hK]
+    simp
+  have hf1 := pyFormat_template _ ((lt ++ rt).map termStr) hbr (by simpa using hlen)
+  have hf2 := pyFormat_template _ ((lt ++ rt).map termCode) hbr (by simpa using hlen)
+  rw [htem] at hf1 hf2
+  refine ⟨?_, hall⟩
+  unfold parseBody
+  rw [hV]
+  simp only [Bool.false_eq_true, if_false, hB, bne_self_eq_false, hbr, het]
+  simp only [hlen, bne_self_eq_false, Bool.false_eq_true, if_false]
+  unfold finishEq
+  rw [htem, hf1, hf2, hS]
+
+/-- **nf_reparse** (what the parser emits for a statement whose template is already normalised): the equation is the
+    token list itself with every term re-spelled `name[t]`, `name[t+k]`, `name[t-k]`, `name['period']` (parameters
+    and errors lose their brackets, functions the blank before `(`), nothing else changes. -/
+theorem nf_reparse (L R : List Tok) (a b : List Char) (lt rt : List Term)
+    (hW : Wf false (stmtToks L R a b)) (hWl : Wf false (L ++ [.chunk a])) (hWr : Wf false (.chunk b :: R))
+    (hEq : ∀ c ∈ renderAll (L ++ [.chunk a]), c ≠ '=')
+    (hV : (startsWith ['`'] (renderAll (stmtToks L R a b)) && endsWith ['`'] (renderAll (stmtToks L R a b))) = false)
+    (hB : braceNet 0 (renderAll (stmtToks L R a b)) = 0)
+    (hO : ∀ c ∈ outsideAll (stmtToks L R a b), isBrace c = false)
+    (hl : termsOf (expectAll 0 (L ++ [.chunk a])) = some lt) (hr : termsOf (expectAll 0 (.chunk b :: R)) = some rt)
+    (hK : (hasKind .keyword lt || hasKind .invalid rt) = false) (hS : symbolStage lt rt = none)
+    (hN : normaliseWs (holesAll (stmtToks L R a b)) = holesAll (stmtToks L R a b)) :
+    ∃ code, parseBody (renderAll (stmtToks L R a b)) =
+      .parsed lt rt (.ok (renderAll ((stmtToks L R a b).map (spellTok tSpell)))) (.ok code) := by
+  obtain ⟨h, hall⟩ := parseBody_render L R a b lt rt hW hWl hWr hEq hV hB hO hl hr hK hS
+  refine ⟨renderP (fmtPieces none (holesAll (stmtToks L R a b))) ((lt ++ rt).map termCode), ?_⟩
+  rw [h, hN, renderP_holes _ _ hO, fill_eq _ 0 _ hall]
+
+/-- The index spelling of a token survives the documented feed-back substitution: re-spelling its feed-back form
+    (`[0]`, `[+k]`, `[-k]`) in the `t±k` form gives the same as re-spelling the token itself.  (True for every
+    integer index whose feed-back spelling `int()` reads back — `stable_var` below — and for quoted periods; false
+    for backticked periods, which the property excludes.) -/
+def Stable (t : Tok) : Prop := spellTok tSpell (spellTok fbSpell t) = spellTok tSpell t
+
+theorem stmtToks_map (f : Tok → Tok) (hf : ∀ cs, f (.chunk cs) = .chunk cs) (L R : List Tok) (a b : List Char) :
+    (stmtToks L R a b).map f = stmtToks (L.map f) (R.map f) a b := by
+  simp [stmtToks, hf]
+
+/-- **normal_form_fixed_point** (clause "feeding a symbol's normalised equation back reproduces it", on the token
+    grammar): let `E = ts.map (spellTok tSpell)` be the equation tokens of a statement `ts` (what `nf_reparse` shows
+    the parser emits) and `F = ts.map (spellTok fbSpell)` its feed-back form (`[t] → [0]`, `[t+k] → [+k]`,
+    `[t-k] → [-k]`).  If `F` meets the hypotheses of `nf_reparse` and every index spelling is `Stable`, parsing the
+    text of `F` yields exactly the text of `E` again as its equation. -/
+theorem normal_form_fixed_point (L R : List Tok) (a b : List Char) (lt rt : List Term)
+    (hSt : ∀ t ∈ stmtToks L R a b, Stable t)
+    (hW : Wf false (stmtToks (L.map (spellTok fbSpell)) (R.map (spellTok fbSpell)) a b))
+    (hWl : Wf false (L.map (spellTok fbSpell) ++ [.chunk a])) (hWr : Wf false (.chunk b :: R.map (spellTok fbSpell)))
+    (hEq : ∀ c ∈ renderAll (L.map (spellTok fbSpell) ++ [.chunk a]), c ≠ '=')
+    (hV : (startsWith ['`'] (renderAll (stmtToks (L.map (spellTok fbSpell)) (R.map (spellTok fbSpell)) a b)) &&
+           endsWith ['`'] (renderAll (stmtToks (L.map (spellTok fbSpell)) (R.map (spellTok fbSpell)) a b))) = false)
+    (hB : braceNet 0 (renderAll (stmtToks (L.map (spellTok fbSpell)) (R.map (spellTok fbSpell)) a b)) = 0)
+    (hO : ∀ c ∈ outsideAll (stmtToks (L.map (spellTok fbSpell)) (R.map (spellTok fbSpell)) a b), isBrace c = false)
+    (hl : termsOf (expectAll 0 (L.map (spellTok fbSpell) ++ [.chunk a])) = some lt)
+    (hr : termsOf (expectAll 0 (.chunk b :: R.map (spellTok fbSpell))) = some rt)
+    (hK : (hasKind .keyword lt || hasKind .invalid rt) = false) (hS : symbolStage lt rt = none)
+    (hN : normaliseWs (holesAll (stmtToks (L.map (spellTok fbSpell)) (R.map (spellTok fbSpell)) a b)) =
+          holesAll (stmtToks (L.map (spellTok fbSpell)) (R.map (spellTok fbSpell)) a b)) :
+    ∃ code, parseBody (renderAll ((stmtToks L R a b).map (spellTok fbSpell))) =
+      .parsed lt rt (.ok (renderAll ((stmtToks L R a b).map (spellTok tSpell)))) (.ok code) := by
+  obtain ⟨code, h⟩ := nf_reparse _ _ a b lt rt hW hWl hWr hEq hV hB hO hl hr hK hS hN
+  refine ⟨code, ?_⟩
+  rw [stmtToks_map (spellTok fbSpell) (fun _ => rfl), h]
+  congr 2
+  rw [← stmtToks_map (spellTok fbSpell) (fun _ => rfl), List.map_map]
+  congr 1
+  apply List.map_congr_left
+  intro t ht
+  exact hSt t ht
+
+theorem respell_hole (sp : Int → List Char) (kind : Kind) (n : List Char) (ix : Option IdxR) :
+    (respell sp kind n ix).hole = ['{', '}'] := by
+  unfold respell
+  split <;> simp [Tok.hole, Tok.abs]
+
+/-- The template of the feed-back form is the template of the statement (terms are `{}` either way). -/
+theorem holes_spell (sp : Int → List Char) : ∀ ts : List Tok, holesAll (ts.map (spellTok sp)) = holesAll ts
+  | [] => rfl
+  | t :: ts => by
+    simp only [List.map_cons, holesAll, holes_spell sp ts]
+    congr 1
+    cases t with
+    | var n ix => simp [spellTok, respell_hole]; simp [Tok.hole, Tok.abs]
+    | param w1 n w2 ix => simp [spellTok, respell_hole]; simp [Tok.hole, Tok.abs]
+    | err w1 n w2 ix => simp [spellTok, respell_hole]; simp [Tok.hole, Tok.abs]
+    | func n w => simp [spellTok, Tok.hole, Tok.abs]
+    | chunk cs => rfl
+    | lt => rfl
+    | kw k => rfl
+    | verb c1 body => rfl
+
+/-! ### Concrete round trips at the level of `parseEquationText` (text in, text out), by evaluation -/
+
+/-- `Y = {a} * H_d[ -12 ]+exp  (X[1]) - < e > / Z` (parameter, error, function with blanks, lag, lead, spaces in brackets):
+    the equation is `Y[t] = a[t] * H_d[t-12]+exp(X[t+1]) - e[t] / Z[t]`, and parsing its feed-back form reproduces equation and code. -/
+example : (eqCode (parseEquationText ['Y', ' ', '=', ' ', '{', 'a', '}', ' ', '*', ' ', 'H', '_', 'd', '[', ' ', '-', '1', '2', ' ', ']', '+', 'e', 'x', 'p', ' ', ' ', '(', 'X', '[', '1', ']', ')', ' ', '-', ' ', '<', ' ', 'e', ' ', '>', ' ', '/', ' ', 'Z'])).map (·.1) = some ['Y', '[', 't', ']', ' ', '=', ' ', 'a', '[', 't', ']', ' ', '*', ' ', 'H', '_', 'd', '[', 't', '-', '1', '2', ']', '+', 'e', 'x', 'p', '(', 'X', '[', 't', '+', '1', ']', ')', ' ', '-', ' ', 'e', '[', 't', ']', ' ', '/', ' ', 'Z', '[', 't', ']'] ∧
+    roundTrips ['Y', ' ', '=', ' ', '{', 'a', '}', ' ', '*', ' ', 'H', '_', 'd', '[', ' ', '-', '1', '2', ' ', ']', '+', 'e', 'x', 'p', ' ', ' ', '(', 'X', '[', '1', ']', ')', ' ', '-', ' ', '<', ' ', 'e', ' ', '>', ' ', '/', ' ', 'Z'] = true := by decide
+
+/-- `Y = `len(self.span)` * X[-1] + max(Z, 0)` (a verbatim fragment, a replaced function, a lag). -/
+example : (eqCode (parseEquationText ['Y', ' ', '=', ' ', '`', 'l', 'e', 'n', '(', 's', 'e', 'l', 'f', '.', 's', 'p', 'a', 'n', ')', '`', ' ', '*', ' ', 'X', '[', '-', '1', ']', ' ', '+', ' ', 'm', 'a', 'x', '(', 'Z', ',', ' ', '0', ')'])).map (·.1) = some ['Y', '[', 't', ']', ' ', '=', ' ', '`', 'l', 'e', 'n', '(', 's', 'e', 'l', 'f', '.', 's', 'p', 'a', 'n', ')', '`', ' ', '*', ' ', 'X', '[', 't', '-', '1', ']', ' ', '+', ' ', 'm', 'a', 'x', '(', 'Z', '[', 't', ']', ',', ' ', '0', ')'] ∧
+    roundTrips ['Y', ' ', '=', ' ', '`', 'l', 'e', 'n', '(', 's', 'e', 'l', 'f', '.', 's', 'p', 'a', 'n', ')', '`', ' ', '*', ' ', 'X', '[', '-', '1', ']', ' ', '+', ' ', 'm', 'a', 'x', '(', 'Z', ',', ' ', '0', ')'] = true := by decide
+
+/-- The excluded case: a backticked period index is not stable (`X[`2000`]` is emitted as `X[2000]`, which reads back
+    as a lead of 2000). -/
+example : roundTrips ['Y', ' ', '=', ' ', 'X', '[', '`', '2', '0', '0', '0', '`', ']'] = false := by decide
+
+/-! ### The token-level theorems are not vacuous: `Y = { a } * X[ -1 ] + f  (Z)` -/
+
+def nfL : List Tok := [.var ['Y'] none]
+def nfR : List Tok := [.param [' '] ['a'] [' '] none, .chunk [' ', '*', ' '], .var ['X'] (some ⟨[' '], ['-', '1'], [' ']⟩),
+                       .chunk [' ', '+', ' '], .func ['f'] [' ', ' '], .chunk ['('], .var ['Z'] none, .chunk [')']]
+def nfLt : List Term := (termsOf (expectAll 0 (nfL.map (spellTok fbSpell) ++ [.chunk [' ']]))).getD []
+def nfRt : List Term := (termsOf (expectAll 0 (.chunk [' '] :: nfR.map (spellTok fbSpell)))).getD []
+
+instance (t : Tok) : Decidable (Stable t) := by unfold Stable; infer_instance
+
+/-- every hypothesis of `normal_form_fixed_point` holds for this statement … -/
+example : ∃ code, parseBody (renderAll ((stmtToks nfL nfR [' '] [' ']).map (spellTok fbSpell))) =
+    .parsed nfLt nfRt (.ok (renderAll ((stmtToks nfL nfR [' '] [' ']).map (spellTok tSpell)))) (.ok code) :=
+  normal_form_fixed_point nfL nfR [' '] [' '] nfLt nfRt (by decide) (wfB_sound _ _ (by decide)) (wfB_sound _ _ (by decide))
+    (wfB_sound _ _ (by decide)) (by decide) (by decide) (by decide) (by decide) (by decide) (by decide) (by decide)
+    (by decide) (by decide)
+
+/-- … and the texts are what one expects: feed-back form `Y[0] = a[0] * X[-1] + f(Z[0])`, equation
+    `Y[t] = a[t] * X[t-1] + f(Z[t])`. -/
+example : renderAll ((stmtToks nfL nfR [' '] [' ']).map (spellTok fbSpell)) =
+      ['Y', '[', '0', ']', ' ', '=', ' ', 'a', '[', '0', ']', ' ', '*', ' ', 'X', '[', '-', '1', ']', ' ', '+', ' ', 'f', '(',
+       'Z', '[', '0', ']', ')'] ∧
+    renderAll ((stmtToks nfL nfR [' '] [' ']).map (spellTok tSpell)) =
+      ['Y', '[', 't', ']', ' ', '=', ' ', 'a', '[', 't', ']', ' ', '*', ' ', 'X', '[', 't', '-', '1', ']', ' ', '+', ' ', 'f',
+       '(', 'Z', '[', 't', ']', ')'] := by decide
 
 end Fsic.C14
